@@ -162,6 +162,8 @@ func runC15(c *Ctx, r *Report) {
 	r.Doc("R-C15.6", "on a path where an upper-bound option (LT/LTE) was seen, the start set handed to the traversal is never (re)assigned from the log's heads")
 	r.Doc("R-C15.7", "entries are emitted newest first: the traversal sorts its start set and re-sorts after every growth before taking the next entry (for every caller, including the bounded iterator paths)")
 	importRules(c, r, "C03", []string{"R-C03.2"}, "R-C15.7")
+	r.Doc("R-C15.8", "the loops that build the start set from the upper bounds process every bound")
+	loopsComplete(c, r, "R-C15.8", func(fn *Fn) bool { return rootNamed(fn, "Iterator") }, "upper bounds after the point where the loop stops are ignored: their causal past is not emitted")
 	headsField := p.Field("", "IPFSLog", "heads")
 	ltF, lteF := p.Field("iface", "IteratorOptions", "LT"), p.Field("iface", "IteratorOptions", "LTE")
 	nhs := 0
